@@ -26,6 +26,7 @@ import Knut.Driver.GoSemFmt
 import Knut.Driver.GoSemBean
 import Knut.Driver.GoSemFloat
 import Knut.Driver.GoSemTable
+import Knut.Driver.GoSemParse
 /-! Line-protocol driver over the executable model: one request per line (`op field*`), one answer line.
 Each property contributes a handler module `Knut/Driver/<X>.lean`; add it to `handlers`. -/
 open Knut Knut.Wire
@@ -58,7 +59,8 @@ def handlers : List (List String → Option String) := [
   Knut.Driver.GoSemFmt.handle,
   Knut.Driver.GoSemBean.handle,
   Knut.Driver.GoSemFloat.handle,
-  Knut.Driver.GoSemTable.handle
+  Knut.Driver.GoSemTable.handle,
+  Knut.Driver.GoSemParse.handle
 ]
 
 def handle (fields : List String) : String :=
